@@ -446,6 +446,28 @@ func (g *histGen) unit() {
 				g.add(ms...)
 			}},
 		)
+		if g.o.params {
+			cs = append(cs, choice{1, func() {
+				// a statement whose parameters come from ParseParameters(query): gaps,
+				// repetitions, descending order, huge indexes, ? markers; its Describe
+				// must announce the independent placeholder count
+				key := g.newKey()
+				sp := g.genStmt(true)
+				sp.Params = nil
+				sp.PP = true
+				var keep []Op
+				for _, op := range sp.Ops {
+					if op.K != "params" && op.K != "scan" {
+						keep = append(keep, op)
+					}
+				}
+				sp.Ops = keep
+				g.c.Programs[key] = &Program{Stmts: []*StmtProg{sp}}
+				q := key + " " + r.Pick("$1", "$5", "$2 $1", "$3 $3 $1", "? ? ?", "$300", "$40000", "$65535", "$70000 $2", "$0", "$99999999999999999999", "x$1y ?")
+				sn := g.name(nil, "s")
+				g.add(pgwire.FMsg{K: "P", S1: sn, S2: q}, pgwire.FMsg{K: "D", Sub: 'S', S1: sn}, pgwire.FMsg{K: "S"})
+			}})
+		}
 		if g.o.closes {
 			cs = append(cs, choice{2, func() {
 				if r.Bool() {
